@@ -32,7 +32,7 @@ func NewTrustedMessageHandlers(ctx context.Context, config config.Config, state 
 	handlers []client.Handler) map[string]MessageHandler {
 
 	blockHandler := NewBlockHandler(state, blockRefeeder)
-	txHandler := NewTXHandler(state, unconfTxChannel)
+	txHandler := NewTXHandler(state, memPool, unconfTxChannel)
 
 	return map[string]MessageHandler{
 		wire.CmdPing:    NewPingHandler(),
@@ -55,7 +55,7 @@ func NewUntrustedMessageHandlers(ctx context.Context, trustedState *state.State,
 	memPool *state.MemPool, txChannel *TxChannel,
 	isRelevant IsRelevant, address string) map[string]MessageHandler {
 
-	txHandler := NewUntrustedTXHandler(untrustedState, txChannel)
+	txHandler := NewUntrustedTXHandler(untrustedState, memPool, txChannel)
 
 	// Blocks are never requested from untrusted nodes, so there is no block handler. A block from
 	// an untrusted node must not be fed into the trusted node's block requests.
